@@ -91,7 +91,7 @@ def cases(tier, seed):
                 r = np.random.default_rng(s)
                 out.append({'kind': 'pow', 'seed': s, 'params': {'op': pk, 'D': D, 'P': int(r.integers(1, 4)),
                                                                   'xshape': list(XSHAPES[int(r.integers(len(XSHAPES)))]),
-                                                                  'data': ['random', 'complex'][int(r.integers(2))]}})
+                                                                  'data': ['random', 'complex', 'tiny'][int(r.integers(3)) if pk.startswith('pow_utpm') else int(r.integers(2))]}})
     return out
 
 
@@ -303,7 +303,7 @@ def _pow(ctx, case):
     cplx = data == 'complex'
     mech = pk
     if pk in ('pow_pyint', 'pow_npint'):
-        n = int(rng.integers(-3, 6))
+        n = int(rng.integers(-3, 6)) if rng.random() < 0.6 else int(rng.integers(6, 14))          # exponents beyond the small ones too
         xd = _mk_utpm_data(rng, D, P, xs, data, n < 0)
         e = n if pk == 'pow_pyint' else np.int64(n)
         mech = '%s:%s' % (pk, 'neg' if n < 0 else ('zero' if n == 0 else 'pos'))
@@ -327,6 +327,8 @@ def _pow(ctx, case):
         exact = None; yd = None
     else:
         xd = gen.series_data(rng, D, P, xs, 'pos', 'random', False)
+        if data == 'tiny':
+            xd *= 1e-20          # a base polynomial of tiny magnitude: log x = log(1e-20) + log(u), nothing singular about it
         ys = xs if pk == 'pow_utpm' else _bcast_partner(rng, xs, P, D, 'bcast')
         yd = gen.series_data(rng, D, P, ys, 'R', 'random', False)
         call = lambda x: x ** UTPM(yd.copy())
@@ -360,7 +362,10 @@ def _pow(ctx, case):
                 if yd is not None:
                     yi = np.unravel_index(int(iy[idx]), ys_) if ys_ else ()
                     ysr = [O.num(v) for v in yd[(slice(None), pp) + yi]]
-                    lx, mlx = O.series(mp.log, list(xsr))
+                    x0m = O.num(xsr[0])          # closed-form Taylor coefficients of log at x0 (valid for tiny x0, unlike numerical differentiation)
+                    lk = [mp.log(x0m)] + [(-1) ** (k - 1) / (k * x0m ** k) for k in range(1, D)]
+                    xm = [O.num(v) for v in xsr]
+                    lx = O.compose(lk, xm); mlx = O.compose([abs(v) for v in lk], [abs(v) for v in xm])
                     w = O.mul(ysr, lx); mw = O.mul([abs(v) for v in ysr], mlx)
                     ek = O.taylor_coeffs(mp.exp, w[0], D - 1)
                     ref = O.compose(ek, w); maj = O.compose([abs(v) for v in ek], [abs(mw[0])] + mw[1:])
